@@ -171,10 +171,63 @@ def run(ctx):
             ctx.disagree(f"parallel item {info}: verified model solve={o.get('solve')} optimal length {len(o.get('solution', []))} vs stored {n}", info)
 
 
+def _all_pairs_shortest(ctx, m, n, info) -> bool:
+    """the solver on EVERY ordered pair of one maze against BFS (used around a maze on which the correspondence broke)"""
+    cl = np.asarray(m.connection_list)
+    cells = list(itertools.product(range(n), range(n)))
+    for s in cells:
+        d = c02.bfs(n, n, cl, s)
+        for e in cells:
+            if e not in d: continue
+            try:
+                p = m.find_shortest_path(s, e)
+            except Exception as ex:
+                ctx.violate(f"{info}: find_shortest_path({s},{e}) raised {type(ex).__name__} on connected cells", dict(info, s=list(s), e=list(e), edges=gens.edges_of(cl))); return True
+            ctx.case([str(info), s, e])
+            if len(p) - 1 != d[e]:
+                ctx.violate(f"{info}: a dataset item with start {s} and end {e} on this maze would store a {len(p)-1}-step solution, the shortest route has {d[e]} steps "
+                            f"(find_shortest_path is what generate uses to solve every item)", dict(info, s=list(s), e=list(e), edges=gens.edges_of(cl), path=[[int(a), int(b)] for a, b in p])); return True
+    return False
+
+
+def _cfg_of(case, ep, seed, n_mazes, name="search"):
+    from maze_dataset import MazeDatasetConfig
+    from maze_dataset.generation.generators import GENERATORS_MAP
+    epk = {k: ([tuple(x) for x in v] if isinstance(v, list) else v) for k, v in ep.items()}
+    return MazeDatasetConfig(name=name, grid_n=case["rows"], n_mazes=n_mazes, maze_ctor=GENERATORS_MAP["gen_" + case["gen"]],
+                             maze_ctor_kwargs=case["kwargs"], endpoint_kwargs=epk, seed=seed)
+
+
 def search(ctx):
+    from maze_dataset import MazeDataset
+    # 1. around the inputs on which the correspondence broke: same configuration and seed, every item judged, and the solver
+    #    on every ordered pair of the very mazes involved
+    seen = set()
+    for d in ctx.disagreements[:12]:
+        info = d.get("case") or {}
+        if not isinstance(info, dict) or "case" not in info or "seed" not in info: continue
+        key = (str(info["case"]), info["seed"])
+        if key in seen: continue
+        seen.add(key)
+        try:
+            ds = MazeDataset.generate(_cfg_of(info["case"], info.get("ep", {}), info["seed"], max(8, info.get("index", 0) + 1)))
+        except ValueError:
+            continue
+        for i, m in enumerate(ds.mazes):
+            bad = oracle_item(info["case"]["rows"], m, info.get("ep", {}))
+            if bad:
+                ctx.violate(f"item {i} of {info['case']} endpoint_kwargs={info.get('ep')} seed={info['seed']}: {bad}", dict(info, index=i)); return
+            if _all_pairs_shortest(ctx, m, info["case"]["rows"], dict(case=info["case"], seed=info["seed"], index=i)): return
+    # 2. datasets of mazes WITH cycles (where a solver defect can hide) and the general mix
     for k in range(300 if ctx.quick else 3000):
-        cfg, case, ep = make_cfg(ctx.rng, 10_000 + k)
-        from maze_dataset import MazeDataset
+        if k % 2 == 0:
+            n = ctx.rng.randint(5, 10)
+            case = dict(gen=ctx.rng.choice(["dfs_percolation", "percolation"]), rows=n, cols=n, kwargs={})
+            case["kwargs"]["p"] = round(ctx.rng.uniform(0.15, 0.5), 2) if case["gen"] == "dfs_percolation" else round(ctx.rng.uniform(0.55, 0.9), 2)
+            ep = {}
+            cfg = _cfg_of(case, ep, ctx.rng.randint(0, 2**20), 16, f"c03s_{k}")
+        else:
+            cfg, case, ep = make_cfg(ctx.rng, 10_000 + k)
         try:
             ds = MazeDataset.generate(cfg)
         except ValueError as e:
@@ -191,7 +244,17 @@ def search(ctx):
 def replay(ctx, rp):
     from maze_dataset import MazeDataset, MazeDatasetConfig
     from maze_dataset.generation.generators import GENERATORS_MAP
-    c = rp["case"]; case = c["case"]; ep = {k: ([tuple(x) for x in v] if isinstance(v, list) else v) for k, v in c.get("ep", {}).items()}
+    c = rp["case"]
+    if "edges" in c and "s" in c:
+        from maze_dataset import LatticeMaze
+        n = c["case"]["rows"]
+        cl = np.zeros((2, n, n), dtype=bool)
+        for d, i, j in c["edges"]: cl[d, i, j] = True
+        p = LatticeMaze(connection_list=cl).find_shortest_path(tuple(c["s"]), tuple(c["e"]))
+        want = c02.bfs(n, n, cl, tuple(c["s"]))[tuple(c["e"])]
+        if len(p) - 1 != want: ctx.violate(f"replay: {len(p)-1}-step solution, shortest is {want}", c)
+        return
+    case = c["case"]; ep = {k: ([tuple(x) for x in v] if isinstance(v, list) else v) for k, v in c.get("ep", {}).items()}
     cfg = MazeDatasetConfig(name="replay", grid_n=case["rows"], n_mazes=max(8, c.get("index", 0) + 1), maze_ctor=GENERATORS_MAP["gen_" + case["gen"]],
                             maze_ctor_kwargs=case["kwargs"], endpoint_kwargs=ep, seed=c["seed"])
     ds = MazeDataset.generate(cfg)
